@@ -44,7 +44,8 @@ const (
 // FlowSample represents single flow sample
 type FlowSample struct {
 	SequenceNo   uint32 // Incremented with each flow sample
-	SourceID     byte   // sfSourceID
+	SourceID     byte   // sfSourceID type (top 8 bits of the source id word)
+	SourceIDIdx  uint32 // sfSourceID index (low 24 bits of the source id word)
 	SamplingRate uint32 // sfPacketSamplingRate
 	SamplePool   uint32 // Total number of packets that could have been sampled
 	Drops        uint32 // Number of times a packet was dropped due to lack of resources
@@ -94,7 +95,11 @@ func (fs *FlowSample) unmarshal(r io.ReadSeeker) error {
 		return err
 	}
 
-	r.Seek(3, 1) // skip counter sample decoding
+	buf := make([]byte, 3)
+	if err = read(r, &buf); err != nil {
+		return err
+	}
+	fs.SourceIDIdx = uint32(buf[2]) | uint32(buf[1])<<8 | uint32(buf[0])<<16
 
 	if err = read(r, &fs.SamplingRate); err != nil {
 		return err
@@ -151,8 +156,12 @@ func (sh *SampledHeader) unmarshal(r io.Reader) error {
 	}
 
 	sh.Header = make([]byte, sh.HeaderLength+tmp)
-	if _, err = r.Read(sh.Header); err != nil {
-		return err
+	// nothing to read for an empty header (at the end of the datagram
+	// Read reports io.EOF even for an empty buffer)
+	if len(sh.Header) > 0 {
+		if _, err = r.Read(sh.Header); err != nil {
+			return err
+		}
 	}
 
 	sh.Header = sh.Header[:sh.HeaderLength]
@@ -231,7 +240,11 @@ func decodeFlowSample(r io.ReadSeeker) (*FlowSample, error) {
 			if err != nil {
 				return fs, err
 			}
-			fs.Records["RawHeader"] = d
+			// nil: the sampled header can not be dissected, the
+			// record has been consumed and is left out
+			if d != nil {
+				fs.Records["RawHeader"] = d
+			}
 		case SFDataExtSwitch:
 			d, err := decodeExtSwitchData(r)
 			if err != nil {
@@ -240,6 +253,14 @@ func decodeFlowSample(r io.ReadSeeker) (*FlowSample, error) {
 
 			fs.Records["ExtSwitch"] = d
 		case SFDataExtRouter:
+			// only IPv4 and IPv6 next hops are decoded; any other
+			// record (address type unknown: 12 bytes) is skipped
+			// by its declared length
+			if rTypeLength != 16 && rTypeLength != 28 {
+				r.Seek(int64(rTypeLength), 1)
+				continue
+			}
+
 			d, err := decodeExtRouterData(r, rTypeLength)
 			if err != nil {
 				return fs, err
@@ -264,10 +285,13 @@ func decodeSampledHeader(r io.Reader) (*packet.Packet, error) {
 		return nil, err
 	}
 
+	// the record has been read completely (header fields, header bytes
+	// and padding): a header that can not be dissected (truncated, not
+	// IP, unknown transport protocol ...) must not fail the datagram
 	p := packet.NewPacket()
 	d, err := p.Decoder(h.Header, h.Protocol)
 	if err != nil {
-		return nil, err
+		return nil, nil
 	}
 
 	return d, nil
